@@ -95,6 +95,12 @@ CHECKS = {
    note="Gating = the recipe (property level); disagreement with the step-by-step algorithm model is reported as drift only. The family predicate (well-nested, no dead nodes) is part of the spec. F.softmax's private _stacklevel keyword is dropped by the built-in map (named in the spec).",
    technique="TLA+ algorithm-refines-recipe spec + TLC over all small graphs; trace validation of real backend runs against the recipe",
    design="4/C16"),
+ "C15": dict(
+   spec="spec/SimFormat.tla, SimFormat_MC.tla, SimFormat_Eval.tla, Quantise.tla, Quantise_Trace.tla, FxGraph.tla",
+   text="SimFormat models the argument-splicing rewrite of _quantisation_backend, the meaning of the four _quantised_* wrappers as explicit straight-through Qf/Qb nodes, and a declarative recipe built straight from the input graph; TLC checks Expand(Rewrite(G)) = Recipe(G) (up to argument-passing style), that nothing else changes and that no parameter is bound twice for every graph with <= 2 (thorough 3) op nodes over all call styles, refuting the two pre-fix deviations. Straight-through bit patterns are validated by Quantise_Trace. For random real FX graphs (depth 1-12, inputs of rank 2-4) TLC emits the recipe graph, which is built into a reference module and compared BITWISE (outputs and every gradient, random source pinned) with the module produced by the real backend for nearest / stochastic / explicit-srbits / lossless format pairs; a module family goes through simulate_format/simulate_fp8 (TorchDynamo) against hand-written references.",
+   note="FPFormat.quantise itself is trusted here (C13/C14). Lossless-vs-original gradients are compared up to float32 re-association (1e-5), because the inserted autograd nodes permute the accumulation order of tensors with >= 3 consumers; outputs bitwise. Known finding: a root module that is itself a torch.nn layer is not transformed.",
+   technique="TLA+ rewrite-refines-recipe spec + TLC; TLC-emitted recipe graphs replayed as reference modules against the real transform",
+   design="4/C15"),
 }
 CHECKS = dict(sorted(CHECKS.items()))
 
